@@ -9,7 +9,7 @@
    Not modelled: float rounding (node coordinates are exact rationals), scipy's interpn (section variable),
    aliasing of numpy buffers (checked by snapshots in the correspondence), plotting / slice methods. *)
 From Coq Require Import List ZArith QArith Qabs Bool.
-From SX Require Import Lib.Py Lib.QCheck.
+From SX Require Import Lib.Py Lib.QCheck Gen.GenLattice.
 Import ListNotations.
 
 Inductive wres (A : Type) := WOk (a : A) | Warned (a : A) | WErr (e : errcls).
@@ -80,8 +80,8 @@ Section Grid.
   Definition with_grid (L : lattice) (g : nat -> nat -> nat -> V) : lattice :=
     {| ax := ax L; ay := ay L; az := az L; grid := g |}.
 
-  (* 0 <= i < num_points *)
-  Definition valid1 (i : Z) (a : axis) : bool := (0 <=? i)%Z && (i <? Z.of_nat (npts a))%Z.
+  (* 0 <= i < num_points: the guard is the one read from __is_valid_index in this run (Gen/GenLattice.v) *)
+  Definition valid1 (i : Z) (a : axis) : bool := gen_valid1 i (Z.of_nat (npts a)).
   Definition is_valid_index (L : lattice) (i j k : Z) : bool :=
     valid1 i (ax L) && valid1 j (ay L) && valid1 k (az L).
 
@@ -115,9 +115,9 @@ Section Grid.
   Definition set_value_nearest_neighbor := set_at get_index_nn.
   Definition get_value_nearest_neighbor := get_at get_index_nn.
 
-  (* __get_value / get_coordinates *)
+  (* __get_value / get_coordinates; guard and exception class read from the source (Gen/GenLattice.v) *)
   Definition coord1 (i : Z) (a : axis) : result Q :=
-    if (i <? 0)%Z || (i >=? Z.of_nat (npts a))%Z then Err ValueError
+    if gen_coord_bad i (Z.of_nat (npts a)) then Err gen_coord_err
     else match nth_error (avals a) (Z.to_nat i) with Some v => Ok v | None => Err IndexError end.
   Definition get_coordinates (L : lattice) (i j k : Z) : result (Q * Q * Q) :=
     rbind (coord1 i (ax L)) (fun x => rbind (coord1 j (ay L)) (fun y => rbind (coord1 k (az L)) (fun z => Ok (x, y, z)))).
